@@ -198,6 +198,17 @@ def bodylog(jd):
     return p.read_text().split() if p.exists() else []
 
 
+def _read_log(path):
+    out = []
+    if path.exists():
+        for l in path.read_text().splitlines():
+            try:
+                out.append(json.loads(l))
+            except json.JSONDecodeError:  # a line cut by SIGKILL
+                pass
+    return out
+
+
 def run_case(tpl, case):
     """case = {scenario: [init, outcome], k, sig, bodykill}; returns the observation"""
     init, outcome = case["scenario"]
@@ -208,7 +219,7 @@ def run_case(tpl, case):
         rc = launch(tpl, jd, case.get("k", 0) if not bk else 0, sig, outcome, bk)
         st = dirstate(tpl, jd)
         bl = bodylog(jd)
-        eff = [json.loads(l) for l in (jd / "efflog").read_text().splitlines()] if (jd / "efflog").exists() else []
+        eff = _read_log(jd / "efflog")
         n0 = len(bl)
         rc2 = launch(tpl, jd, 0, 0, "ok")
         bl2 = bodylog(jd)[n0:]
@@ -430,13 +441,17 @@ def evaluate(ctx, tpl, cases, unreg, with_model=True):
     return cases, obs
 
 
-def plan(ctx, nlines, thorough):
+def plan(ctx, nlines, thorough, k0=0):
     """kill points: every executed line x 3 signals (thorough) or a seeded third of them (quick), plus the points
     inside the body"""
     cases = []
     for sc in SCENARIOS:
         n = nlines[tuple(sc)]
         ks = list(range(1, n + 1))
+        if sc[0] == "fresh" and sc[1] != "ok":
+            # same process behaviour as fresh/ok up to the lock (the body outcome is read at the end of the body):
+            # those kill points are enumerated once, under fresh/ok
+            ks = [k for k in ks if k > k0]
         if not thorough:
             keep = {1, n} | set(ctx.rng.sample(ks, max(4, len(ks) // (3 if sc == SCENARIOS[0] else 6))))
             ks = sorted(keep)
@@ -472,7 +487,9 @@ def correspond(ctx):
                      f"theorem own_exit_leaves_no_pid {'does not apply to this source' if unreg else 'applies'}")
     ctx.extra_cov["source_variant_unregisters_cleanup"] = unreg
     thorough = ctx.tier == "thorough"
-    cases = bcases + plan(ctx, nlines, thorough)
+    k0 = next((e.get("n", 0) for e in bobs[0]["pre"] if e["ev"] == "lock-acquired"), 0)
+    ctx.notes.append(f"lines executed before the run lock is held: {k0} (enumerated once, under fresh/ok)")
+    cases = bcases + plan(ctx, nlines, thorough, k0)
     cases, obs = evaluate(ctx, tpl, cases, unreg)
     ctx.exhaustive = thorough
     # coverage of the model's locations by real kill points
@@ -495,7 +512,8 @@ def search(ctx):
     bcases, bobs = baseline(ctx, tpl)
     nlines = {tuple(c["scenario"]): o["nlines"] for c, o in zip(bcases, bobs)}
     t0 = time.time()
-    cases = bcases + plan(ctx, nlines, True)
+    k0 = next((e.get("n", 0) for e in bobs[0]["pre"] if e["ev"] == "lock-acquired"), 0)
+    cases = bcases + plan(ctx, nlines, True, k0)
     for i in range(0, len(cases), 96):
         if time.time() - t0 > ctx.scale(60, 600) or [m for m in ctx.monitor_failures if not m["key"].startswith("own-exit-pid-left:success")]:
             break
